@@ -4,6 +4,7 @@
 #include <unistd.h>
 #include <signal.h>
 #include <execinfo.h>
+#include <chrono>
 
 namespace vf {
 
@@ -32,6 +33,8 @@ std::string shorten(const std::string &s, size_t max) { if (s.size() <= max) ret
 uint64_t fnv(const std::string &s) { uint64_t h = 1469598103934665603ULL; for (unsigned char c : s) { h ^= c; h *= 1099511628211ULL; } return h; }
 std::string read_file(const std::string &p) { std::ifstream f(p, std::ios::binary); std::stringstream ss; ss << f.rdbuf(); return ss.str(); }
 
+static double now_ms() { return std::chrono::duration<double, std::milli>(std::chrono::steady_clock::now().time_since_epoch()).count(); }
+static double g_case_t0 = 0;
 static void emit(const std::string &line) {
 	if (!ctx.out) return;
 	fputs(line.c_str(), ctx.out); fputc('\n', ctx.out); fflush(ctx.out);
@@ -77,7 +80,7 @@ bool case_begin(long k, const std::string &desc) {
 		if (k < ctx.start) return false;
 		if (ctx.nshards > 1 && (k % ctx.nshards) != ctx.shard) return false;
 	}
-	ctx.cur_case = k;
+	ctx.cur_case = k; g_case_t0 = now_ms();
 	emit(J().kv("t", "begin").kv("case", k).kv("desc", desc).str());
 	return true;
 }
@@ -85,7 +88,7 @@ bool case_begin(long k, const std::string &desc) {
 void case_end(const std::string &key, bool nontrivial, const std::string &sample_json, long long evals, long long distinct) {
 	J j; j.kv("t", "end").kv("case", ctx.cur_case);
 	char kb[24]; snprintf(kb, sizeof kb, "%016llx", (unsigned long long)fnv(key));
-	j.kv("key", kb).kv("nt", nontrivial);
+	j.kv("key", kb).kv("nt", nontrivial).kv("ms", (long long)(now_ms() - g_case_t0));
 	if (evals != 1) j.kv("evals", evals);
 	if (distinct != 1) j.kv("distinct", distinct);
 	if (!sample_json.empty() && ctx.samples_emitted < ctx.max_samples) { j.raw("sample", sample_json); ctx.samples_emitted++; }
